@@ -111,6 +111,53 @@ theorem unannotated_variant_skipped (attrs : List FromAttr) (fields : List Field
 theorem unit_variant_skipped (hef : Bool) : fromExpand .none true hef [] = .ok [] := by
   simp [fromExpand, pure, Except.pure]
 
+theorem mapM_getElem {ε β γ : Type} (f : β → Except ε γ) :
+    ∀ (l : List β) (r : List γ), l.mapM f = .ok r → ∀ (i : Nat) (x : β), l[i]? = some x →
+      ∃ y, r[i]? = some y ∧ f x = .ok y := by
+  intro l
+  induction l with
+  | nil => intro r _ i x hx; simp at hx
+  | cons a t ih =>
+    intro r h i x hx
+    rw [List.mapM_cons] at h
+    cases hfa : f a with
+    | error e => simp [hfa, bind, Except.bind] at h
+    | ok b =>
+      cases ht : t.mapM f with
+      | error e => simp [hfa, ht, bind, Except.bind] at h
+      | ok bs =>
+        simp [hfa, ht, bind, Except.bind, pure, Except.pure] at h
+        subst h
+        cases i with
+        | zero => simp at hx; subst hx; exact ⟨b, by simp, hfa⟩
+        | succ k =>
+          simp at hx
+          obtain ⟨y, hy, hfy⟩ := ih bs ht k x hx
+          exact ⟨y, by simpa using hy, hfy⟩
+
+/-- **Wherever the explicit variant is declared** — before or after — an un-annotated variant of
+the same enum gets no impl: the decision is taken over the whole enum, not over the variants read so
+far. -/
+theorem explicit_variant_anywhere_switches_off (vs : List (FromAttr × List Field)) (r : List (List FromImpl))
+    (h : fromEnum vs = .ok r) (i j : Nat) (fs gs : List Field) (a : FromAttr)
+    (hi : vs[i]? = some (.none, fs)) (hj : vs[j]? = some (a, gs))
+    (ha : hasExplicitFrom [a] = true) : r[i]? = some [] := by
+  have hmem : a ∈ vs.map (·.1) := List.mem_map.2 ⟨(a, gs), List.mem_of_getElem? hj, rfl⟩
+  have hef : hasExplicitFrom (vs.map (·.1)) = true := by
+    unfold hasExplicitFrom at ha ⊢
+    simp only [List.any_cons, List.any_nil, Bool.or_false] at ha
+    exact List.any_eq_true.2 ⟨a, hmem, ha⟩
+  obtain ⟨y, hy, hfy⟩ := mapM_getElem _ vs r h i (.none, fs) hi
+  simp only [hef] at hfy
+  have : fromExpand .none true true fs = .ok [] := by simp [fromExpand, pure, Except.pure]
+  rw [this] at hfy
+  cases hfy
+  exact hy
+
+/-- Non-vacuity: `enum E { Plain(i32), #[from] Marked(i64) }` — the un-annotated variant comes first. -/
+example : (fromEnum [(.none, [⟨none, "i32"⟩]), (.empty, [⟨none, "i64"⟩])]).map (fun r => r.map List.length) = .ok [0, 1] := by
+  rfl
+
 /-! ### Into -/
 
 theorem mapM_forall {ε β γ : Type} (f : β → Except ε γ) (P : γ → Prop)
